@@ -85,13 +85,13 @@ def pairing(fx, ck):
                                    % (path, what, E.exit_description(f, esc), name, "; ".join(E.path_witness(f, bi, cb)) or "direct"),
                                    {"opener": sp, "exit": E.exit_description(f, esc), "path": E.path_witness(f, bi, cb)})
             elif opens:
-                ok = path in OPEN_ONLY
+                ok = path in OPEN_ONLY or M.only_called_from(fx, path, set(OPEN_ONLY))
                 ck.instance("R2.cross-function", "%s opens %s" % (path, name), F.short_span(opens[0][4]), ok=ok)
                 if not ok:
                     ck.finding("R2.cross-function", "R2.open-only/%s/%s" % (path, name), F.short_span(opens[0][4]),
                                "`%s` pushes onto %s (%s) and no path of the function pops it" % (path, name, opens[0][3]))
             elif closes:
-                ok = path in CLOSE_ONLY
+                ok = path in CLOSE_ONLY or M.only_called_from(fx, path, set(CLOSE_ONLY))
                 ck.instance("R2.cross-function", "%s closes %s" % (path, name), F.short_span(closes[0][4]), ok=ok)
                 if not ok:
                     ck.finding("R2.cross-function", "R2.close-only/%s/%s" % (path, name), F.short_span(closes[0][4]),
@@ -159,7 +159,7 @@ def run(tier):
         if not at_runtime:
             ck.instance("R4.permanent-roots", fn + " (construction only)", F.short_span(spans[0]))
             continue
-        ok = fn in ROOT_GUARD_RUNTIME
+        ok = fn in ROOT_GUARD_RUNTIME or M.only_called_from(fx, fn, set(ROOT_GUARD_RUNTIME))
         ck.instance("R4.permanent-roots", fn, F.short_span(spans[0]), ok=ok)
         if not ok:
             ck.finding("R4.permanent-roots", "R4.permanent-roots/" + fn, F.short_span(spans[0]),
